@@ -54,7 +54,8 @@ class _Expr(ast.NodeTransformer):
         self.generic_visit(node)
         # x in ("a", "b")  ->  x == "a" or x == "b"     (a tuple literal of constants; x a plain name or attribute: evaluated repeatedly for free)
         if len(node.ops) == 1 and isinstance(node.ops[0], (ast.In, ast.NotIn)) and isinstance(node.comparators[0], ast.Tuple) and 1 <= len(node.comparators[0].elts) <= 4 \
-                and all(isinstance(e, ast.Constant) for e in node.comparators[0].elts) and isinstance(node.left, (ast.Name, ast.Attribute)):
+                and all(isinstance(e, ast.Constant) or (isinstance(e, ast.Attribute) and isinstance(e.value, ast.Name)) for e in node.comparators[0].elts) \
+                and isinstance(node.left, (ast.Name, ast.Attribute)):
             pos = isinstance(node.ops[0], ast.In)
             parts = [ast.copy_location(ast.Compare(left=copy.deepcopy(node.left), ops=[ast.Eq() if pos else ast.NotEq()], comparators=[e]), node) for e in node.comparators[0].elts]
             if len(parts) == 1:
@@ -314,6 +315,12 @@ class _Stmt(ast.NodeTransformer):
                     and isinstance(s.orelse[0], ast.AugAssign) and type(s.body[0].op) is type(s.orelse[0].op) and ast.dump(s.body[0].target) == ast.dump(s.orelse[0].target):
                 val = ast.copy_location(ast.IfExp(test=s.test, body=s.body[0].value, orelse=s.orelse[0].value), s)
                 out.append(ast.copy_location(ast.AugAssign(target=s.body[0].target, op=s.body[0].op, value=val), s))
+                i += 1
+                continue
+            # for v in X: yield v   ->   yield from X      (plain iteration; nothing is sent into these generators)
+            if isinstance(s, ast.For) and not s.orelse and isinstance(s.target, ast.Name) and len(s.body) == 1 and isinstance(s.body[0], ast.Expr) \
+                    and isinstance(s.body[0].value, ast.Yield) and isinstance(s.body[0].value.value, ast.Name) and s.body[0].value.value.id == s.target.id:
+                out.append(ast.copy_location(ast.Expr(value=ast.copy_location(ast.YieldFrom(value=s.iter), s)), s))
                 i += 1
                 continue
             # if C: x += <string literal>   ->   x += <string literal> if C else ""      (adding the empty string is the identity on strings)
